@@ -152,8 +152,10 @@ def readMap : Option KeyMap → Option KeyMap × Res
 inductive Edit
   /-- `m[k] = v` -/
   | put (k : String) (v : Option String)
-  /-- `del m[k]` / `m.pop(k)` -/
+  /-- `del m[k]` -/
   | del (k : String)
+  /-- `m.pop(k)` -/
+  | pop (k : String)
   /-- `m.pop(k, None)` -/
   | popd (k : String)
   /-- `m.update({...})` / `m |= {...}` -/
@@ -173,6 +175,7 @@ inductive Edit
 def editMap (m : KeyMap) : Edit → KeyMap × Res
   | .put k v => bput m k (.ofUser v)
   | .del k => if (m.lookup k).isSome then (eraseKey m k, .ok) else (m, .keyErr)
+  | .pop k => if (m.lookup k).isSome then (eraseKey m k, .ok) else (m, .keyErr)
   | .popd k => (eraseKey m k, .ok)
   | .update kvs => bupdate m (kvs.map fun kv => (kv.1, Target.ofUser kv.2))
   | .force k v => (bforce m k (.ofUser v), .ok)
